@@ -66,7 +66,7 @@ int hkdf_extract(const DIGEST *digest, const uint8_t *salt, size_t saltlen,
 		}
 	}
 
-	if (hmac_update(&hmac_ctx, ikm, ikmlen) != 1
+	if (hmac_update(&hmac_ctx, ikm, ikmlen) < 0
 		|| hmac_finish(&hmac_ctx, prk, prklen) != 1) {
 		error_print();
 		return -1;
